@@ -6,8 +6,8 @@ CONSTANTS
   AliasTargets = {1,2,3}
   MaxNum = 2
   MaxOps = 7
-  Known = {"C20-1"}
 VIEW View
 INVARIANT Inv
 PROPERTY StepProp
+PROPERTY NoAbort
 CHECK_DEADLOCK FALSE
